@@ -11,6 +11,9 @@ from harness.props import common
 from harness import str_validate_agent as SV
 
 
+SPRINTF = "sprintf"      # the legacy base environment binds it
+
+
 def reference(op, args):
     """host-string oracle for the operations of the property; None = no reference for this case"""
     try:
@@ -230,7 +233,7 @@ def run(ctx):
     lit_alpha = [c for c in SV.ALPHA if c not in "{}#"] + [" ", "=", "x"]
     for _ in range(5000 if ctx.thorough else 800):
         nph = rng.randint(1, 3)
-        template, want = "", ""
+        template, template2, want = "", "", ""
         for k in range(nph):
             piece = "".join(rng.choice(lit_alpha) for _ in range(rng.randint(0, 4)))
             name = f"p{k}"
@@ -252,9 +255,11 @@ def run(ctx):
             else:
                 spec, shown = f"#0{width}", text.rjust(width, "0")
             template += piece + "{" + name + spec + "}"
+            template2 += piece + "{" + str(k) + spec + "}"
             want += piece + shown
         tail = "".join(rng.choice(lit_alpha) for _ in range(rng.randint(0, 3)))
         template += tail
+        template2 += tail
         want += tail
         it.environment.put("tpl", ValueString(template))
         it.environment.put("want", ValueString(want))
@@ -265,6 +270,16 @@ def run(ctx):
             got = common.run_program(it, "s(tpl)", "c18")
             ctx.violation("oracle", f"s({template!r}) gives {got[:2]}, the definition gives {want!r} (placeholder values: "
                           f"{[str(it.environment.get(f'p{k}')) for k in range(nph)]})", {"op": "interpolation", "template": template, "expected": want})
+        # … and sprintf with the same values passed as ARGUMENTS ({0}, {1}, … with the same format suffixes) gives the same text: the values
+        # (which may hold quotes, braces, backslashes, placeholders) are inserted, never interpreted
+        it.environment.put("tpl2", ValueString(template2))
+        call = SPRINTF + "(tpl2" + "".join(f", p{k}" for k in range(nph)) + ")"
+        out = common.run_program(it, call + " == want", "c18")
+        ctx.count("sprintf_interpolations")
+        if out[:2] != ('val', 'TRUE'):
+            got = common.run_program(it, call, "c18")
+            ctx.violation("oracle", f"sprintf({template2!r}, …) gives {got[:2]}, the definition gives {want!r} (argument values: "
+                          f"{[str(it.environment.get(f'p{k}')) for k in range(nph)]})", {"op": "interpolation", "template": template2, "expected": want})
     ctx.sample({"call": "replace('abcabc', 'bc', 'x')", "result": "axax"})
     ctx.sample({"call": "split('a*b', escape_pattern('*'))", "result": ["a", "b"]})
     ctx.sample({"law": "contains(s, t) == (find(s, t) >= 0)"})
